@@ -35,6 +35,8 @@ func init() {
 			checkReadGuards(c)
 			checkOrderIndependence(c)
 			checkDagMergeAllVisitsAll(c, "R2.12")
+			checkMergeMovesLocalRefOnly(c, "R2.13")
+			checkListCommitsComplete(c, "R2.14")
 		})
 	register("C09",
 		"Static shape of the identity history rules: (*Identity).Merge moves the ref only after appending, reports true exactly where it moved the ref, and never refuses after moving it; identity.MergeAll reports Updated/Nothing according to that result, validates before touching refs and keeps going after a refused identity; every store to Identity.versions is an append to the same field or the initialisation of a fresh Identity; Identity.Id reads version 0 only; Identity.Validate and version.Validate contain the documented refusals with the right polarity; identity.read refuses a ref whose name is not the first version's id.",
@@ -56,6 +58,9 @@ func init() {
 			checkIdentityMergeAllVerdict(c)
 			checkNewOnlyWhenRefAbsent(c)
 			checkUserIdentityResolvedEachCall(c, "R9.11")
+			// an evicted instance can no longer write: a stale handle must not commit on top of an old tip (shared with C11/C18)
+			checkEviction(c)
+			checkValidateAccumulatesAfterTest(c, "R9.4")
 			// what a long-running process serves and edits after a pull is the merged identity
 			checkCacheMergeFold(c, "R2.6")
 			c.Doc("R11.1", "per SubCache function: excerpts store ⇒ index write; delete ⇒ Index.Remove; reset ⇒ Index.Clear; and SubCache.write() on every path to a non-error exit")
